@@ -862,6 +862,33 @@ pub fn run_c20(opts: &Opts, rep: &mut Report) {
                     w.restart(rng.coin());
                     restarted_since_tick = true;
                     label = "restart";
+                    if rng.chance(1, 3) {
+                        // the first tick after the restart times out in its second half: the new run
+                        // is held at its entry (holding the worker lock) while the snapshot may still
+                        // show the old stream
+                        w.check_active_injectors("restart");
+                        if rng.coin() {
+                            w.new_injector();
+                        }
+                        // a run spawned by an earlier tick that has not started yet would take the pause
+                        wait_no_run_pending(2000);
+                        pause_at(Point::RunEntry);
+                        let st = w.tick(0);
+                        if wait_paused(0, 1000) {
+                            rep.count(&format!("c20.first-tick-after-restart-timed-out.running={}", st.running));
+                            w.check_active_injectors("tick timing out after restart");
+                            if rng.coin() && !w.handles.is_empty() {
+                                let k = rng.below(w.handles.len());
+                                w.clone_injector(k);
+                                w.check_active_injectors("clone while the run is held");
+                            }
+                            release(0);
+                        } else {
+                            cancel_pause(0);
+                        }
+                        ever_ticked = true;
+                        restarted_since_tick = false;
+                    }
                 }
                 70..=79 if !w.handles.is_empty() => {
                     let k = rng.below(w.handles.len());
@@ -872,6 +899,11 @@ pub fn run_c20(opts: &Opts, rep: &mut Report) {
                     // a tick that times out against a paused worker
                     let k = rng.below(w.handles.len());
                     if w.handles[k].stream == w.cur {
+                        // make sure no earlier run is still going, otherwise the tick below does not spawn one
+                        let mut g = 0;
+                        while w.tick(5).running && g < 100 {
+                            g += 1;
+                        }
                         w.push_via(k, 30, true);
                         pause_at(Point::RunEntry);
                         w.tick(0);
@@ -902,6 +934,9 @@ pub fn run_c20(opts: &Opts, rep: &mut Report) {
                 }
             }
             w.check_active_injectors(label);
+            if std::env::var_os("C20_TRACE").is_some() {
+                eprintln!("{:?} step {label}", std::time::Instant::now());
+            }
             rep.count("c20.steps-compared");
             states.insert((ever_ticked, restarted_since_tick, w.snap_stream == Some(w.cur), paused));
         }
@@ -914,7 +949,11 @@ pub fn run_c20(opts: &Opts, rep: &mut Report) {
             rep.sample(jobj! {"history" => J::Arr(w.trail.iter().take(40).map(|s| J::Str(s.clone())).collect())});
         }
         flush_problems(&mut w, rep, &["C20"], "model");
+        let t0 = Instant::now();
         w.shutdown();
+        if std::env::var_os("C20_TRACE").is_some() {
+            eprintln!("shutdown took {:?}", t0.elapsed());
+        }
     }
     rep.add("c20.distinct-model-states", states.len() as u64);
     set_hook(None);
